@@ -2,12 +2,29 @@
 //! The specification is nondeterministic (ties): the dendrogram the crate returns must be ONE of
 //! the allowed merge sequences TLC computed.
 use crate::util::*;
-use hpo::builder::Builder;
 use hpo::stats::Linkage;
 use hpo::term::HpoGroup;
 use hpo::annotations::AnnotationId;
 use hpo::HpoSet;
 use serde_json::{json, Value};
+
+/// The ontology the clustered sets live in: HP:1, HP:118 and one term per item (ids 10, 11, ...) below HP:118, loaded
+/// from a binary file so that the items carry metadata a clustering must ignore: every third item is flagged obsolete,
+/// every third names a replacement.
+fn item_ontology(n_items: usize) -> hpo::Ontology {
+    use crate::scenario::{Scenario, TermSpec};
+    let mut scn = Scenario::default();
+    scn.version = (2024, 1, 1);
+    scn.terms.push(TermSpec { id: 1, name: "All".into(), obsolete: false, repl: None });
+    scn.terms.push(TermSpec { id: 118, name: "Phenotypic abnormality".into(), obsolete: false, repl: None });
+    scn.edges.push((1, 118));
+    for i in 0..n_items as u32 {
+        scn.terms.push(TermSpec { id: 10 + i, name: format!("T{i}"), obsolete: i % 3 == 1, repl: if i % 3 == 2 { Some(118) } else { None } });
+        scn.edges.push((118, 10 + i));
+    }
+    let bytes = crate::enc::encode(&crate::enc::abstract_of_ordered(&scn, false), 3);
+    crate::paths::from_bytes(&bytes).expect("item ontology loads")
+}
 
 pub fn replay_line(st: &mut Stats, prop: &str, line: &Value) {
     st.cases += 1;
@@ -28,11 +45,7 @@ pub fn replay_line(st: &mut Stats, prop: &str, line: &Value) {
     // every call of the distance callback: the pairs it was offered, as sorted term-id lists
     let calls: std::cell::RefCell<Vec<Vec<(Vec<u32>, Vec<u32>)>>> = std::cell::RefCell::new(vec![]);
     let res = catch(|| {
-        let mut b = Builder::new();
-        for i in 0..n_items {
-            b.new_term(&format!("T{i}"), 10 + i as u32);
-        }
-        let ont = b.terms_complete().connect_all_terms().calculate_information_content().unwrap().build_minimal();
+        let ont = item_ontology(n_items);
         let sets: Vec<HpoSet> = (0..n)
             .map(|i| {
                 let mut g = HpoGroup::new();
@@ -222,8 +235,8 @@ pub fn record(args: &Args) {
                     vec![i as u32]
                 } else {
                     let mut s: Vec<u32> = (0..n_items as u32).filter(|_| rng.chance(1, 2)).collect();
-                    if s.is_empty() {
-                        s.push(rng.below(n_items as u64) as u32);
+                    if s.is_empty() && run % 7 != 3 {
+                        s.push(rng.below(n_items as u64) as u32); // (every seventh run keeps empty input sets)
                     }
                     s
                 }
@@ -262,11 +275,7 @@ pub fn record(args: &Args) {
         };
         let calls: std::cell::RefCell<Vec<Vec<(Vec<u32>, Vec<u32>)>>> = std::cell::RefCell::new(vec![]);
         let res = catch(|| {
-            let mut b = Builder::new();
-            for i in 0..n_items.max(n) {
-                b.new_term(&format!("T{i}"), 10 + i as u32);
-            }
-            let ont = b.terms_complete().connect_all_terms().calculate_information_content().unwrap().build_minimal();
+            let ont = item_ontology(n_items.max(n));
             let hsets: Vec<HpoSet> = sets
                 .iter()
                 .map(|s| {
